@@ -55,6 +55,8 @@ structure Setup (G : Jl.Grp) (ins : List PartyIn) (n t : Nat) : Prop where
   hnt : 2 * t + 1 ≤ n
   /-- the interpolation points `1..n` are distinct modulo `q` -/
   hnq : (n : Int) < G.q
+  /-- party indices fit `mpz_get_ui` -/
+  hn64 : n < 2 ^ 64
   /-- at most `t` parties deviate -/
   hdev : ((List.range n).filter (fun k => !(pinOf ins k).dev.honest)).length ≤ t
   /-- an honest party's draws are there and reduced modulo `q` -/
@@ -64,6 +66,32 @@ structure Setup (G : Jl.Grp) (ins : List PartyIn) (n t : Nat) : Prop where
 /-- the broadcasts party `j` emits in round `r` (after its output filter) -/
 def bOut (G : Jl.Grp) (ins : List PartyIn) (n t r j : Nat) : List (Tag × Int) :=
   if h : j < (cfg G ins n t r).length then (outOf (flipStep G ins n t r) (cfg G ins n t r) j h).1 else []
+
+/-! ### the binding hypothesis
+
+  Pedersen commitments bind only computationally: whoever knows `log_g h` can open them in many
+  ways.  The theorems about reconstruction therefore assume that the values that OCCUR in the run
+  (in an honest party's state or in a queue of its inbox, at any round) do not contain two
+  different openings of a commitment derived from one row of the table: for every row there is a
+  polynomial of degree `≤ t` on which the first components of all occurring valid openings lie.
+  (A violation yields `log_g h`: `binding_pair` in TmcgProofs/JlArith.lean.) -/
+
+/-- `v` occurs in the run as seen by the honest parties -/
+def Occurs (G : Jl.Grp) (ins : List PartyIn) (n t : Nat) (v : Int) : Prop :=
+  ∃ r k P j, (cfg G ins n t r)[k]? = some P ∧ HonIdx ins n k ∧
+    (v = getI P.st.s j ∨ v = getI P.st.sp j ∨ v = getI P.st.a j ∨ v = getI P.st.ha j ∨
+      ∃ tag, (tag, v) ∈ P.inbox.bq j)
+
+/-- the openings occurring in the run bind the commitments derived from `row` to the polynomial `f` -/
+def BindsRun (G : Jl.Grp) [Fact (Nat.Prime (grp G).p.natAbs)] (ins : List PartyIn) (n t : Nat)
+    (row : List Int) (f : Polynomial (Zq G)) : Prop :=
+  f.degree < ((t + 1 : Nat) : WithBot Nat) ∧
+  ∀ m : Nat, m ≤ n → ∀ x y, Occurs G ins n t x → Occurs G ins n t y → AbsLt G x → AbsLt G y →
+    com G x y = rowF G row m → toQ G x = f.eval ((m : Nat) : Zq G)
+
+/-- the share fixed by the commitments of party `j`: `f_j(0)`, as an integer in `[0, q)` -/
+noncomputable def committed (G : Jl.Grp) (fam : Nat → Polynomial (Zq G)) (j : Nat) : Int :=
+  (((fam j).eval 0).val : Int)
 
 /-! ### what the invariants say about one honest party -/
 
@@ -113,7 +141,7 @@ structure Inv1 [Fact (Nat.Prime (grp G).p.natAbs)] (Q : Nat → List (Tag × Int
   party : ∀ x, HonIdx ins n x → ∃ P, (cfg G ins n t 1)[x]? = some P ∧ Alive P ∧ Core ins n t x P.st ∧
     P.st.C = (zeroRows n t).set x (Row x) ∧ P.st.s = zeros n ∧ P.st.sp = zeros n ∧
     P.st.cnt = List.replicate n 0 ∧ P.st.a = zeros n ∧ P.st.ha = zeros n ∧ P.st.compl = [] ∧
-    Boxes n x P.inbox Q ∧ ∀ j, j < n → P.inbox.pq j = []
+    Boxes n x P.inbox Q ∧ ∀ j, HonIdx ins n j → P.inbox.pq j = []
 
 /-! ### after round 1 (`jlReadC`) -/
 
@@ -254,6 +282,7 @@ structure InvRec [Fact (Nat.Prime (grp G).p.natAbs)] (Q : Nat → List (Tag × I
   /-- a member of Qual that is not accused opened its commitment -/
   open_ok : ∀ j, j ∈ QL → j ∉ R → AbsLt G (A j) ∧ AbsLt G (HA j) ∧ com G (A j) (HA j) = toF (grp G) (getI (getRow CH j) 0)
   open_hon : ∀ j, HonIdx ins n j → A j = getI (cOf ins t j) 0 ∧ HA j = getI (hcOf ins t j) 0
+  open_occ : ∀ j, j ∈ QL → j ∉ R → Occurs G ins n t (A j) ∧ Occurs G ins n t (HA j)
   /-- while an accused party is left: every honest party runs and has published its share of it;
       at the end: every honest party has returned `true` with the sum over Qual -/
   party : ∀ x, HonIdx ins n x → ∃ P, (cfg G ins n t (6 + k))[x]? = some P ∧
